@@ -266,3 +266,19 @@ func retErrNil(e *pathx.Event) bool {
 	}
 	return pathx.IsNilConst(e.Results[len(e.Results)-1])
 }
+
+// paramOfType returns the first parameter of fn whose type prints as typ.
+func paramOfType(fn *ssa.Function, typ string) *ssa.Parameter {
+	for _, p := range fn.Params {
+		if p.Type().String() == typ {
+			return p
+		}
+	}
+	return nil
+}
+
+// isParamOfType reports whether v is a parameter whose type prints as typ.
+func isParamOfType(v ssa.Value, typ string) bool {
+	p, ok := strip(v).(*ssa.Parameter)
+	return ok && p.Type().String() == typ
+}
